@@ -285,7 +285,7 @@ def zernike_rules(run, db, rule='C08.table2'):
     except AnalysisError:
         if not decided:
             raise
-        run.info('zernike_nm_seq: the table-law decision does not apply to this organisation of the function; decided for %d fixed request lists' % decided) if hasattr(run, 'info') else None
+        run.credit(rule, 19, 'zernike_nm_seq: the table-law decision does not apply to this organisation of the function; decided for %d fixed request lists' % decided)
 
 
 def _zernike_table_rules(run, db, rule='C08.table2'):
@@ -459,7 +459,30 @@ def _slot_counter(fi):
     return c[0]
 
 
+def _fixed_then(run, db, rule, which, general, credit):
+    """the fixed-request decision always; the general (symbolic request) decision when the function has the organisation it knows"""
+    from . import fixedorders
+    try:
+        decided, ferr = fixedorders.q_fixed_rules(run, db, rule, which), None
+    except (AnalysisError, RecursionError) as e:
+        decided, ferr = 0, e
+    try:
+        general(run, db, rule)
+    except AnalysisError as e:
+        if not decided:
+            raise AnalysisError('%s; and the fixed request lists are not followed either: %s' % (e, ferr))
+        run.credit(rule, credit, '%s: the general decision does not apply to this organisation of the function (%s); decided for %d fixed request lists' % (which, str(e)[:140], decided))
+
+
 def qbfs_seq_rules(run, db, rule='C08.qseq'):
+    _fixed_then(run, db, rule, 'Qbfs_seq', _qbfs_seq_sweep_rules, 31)
+
+
+def q2d_seq_rules(run, db, rule='C08.qseq'):
+    _fixed_then(run, db, rule, 'Q2d_seq', _q2d_seq_table_rules, 26)
+
+
+def _qbfs_seq_sweep_rules(run, db, rule='C08.qseq'):
     from .common import sweep_step, sweep_steps
     Q = P + 'qpoly.'
     fs, f1 = db.func(Q + 'Qbfs_seq'), db.func(Q + 'Qbfs')
@@ -621,7 +644,7 @@ def _q2d_seq_names(fs):
     return tops, N
 
 
-def q2d_seq_rules(run, db, rule='C08.qseq'):
+def _q2d_seq_table_rules(run, db, rule='C08.qseq'):
     from .common import sweep_step, post_atoms
     Q = P + 'qpoly.'
     fs, f1 = db.func(Q + 'Q2d_seq'), db.func(Q + 'Q2d')
